@@ -64,7 +64,7 @@ def TraceOk [DecidableEq S] (isErr : S → Bool) : S → S → List (Obs S) → 
   | k, prev, o :: rest => OpOk isErr k prev o ∧ TraceOk isErr (replay k o.msgs) o.cache rest
 
 /-- which clause an operation breaks (for the signature of a violation) -/
-def clause [DecidableEq S] (isErr : S → Bool) (k prev : S) (o : Obs S) : String :=
+def clause [DecidableEq S] (isErr : S → Bool) (_k prev : S) (o : Obs S) : String :=
   if ¬ (∀ m ∈ o.msgs, m = o.cache) then "phantom"
   else if ¬ (isErr prev = true → isErr o.cache = false → o.msgs ≠ []) then "recovery-not-announced"
   else if ¬ (o.cache ≠ prev → o.msgs ≠ []) then "change-not-announced"
